@@ -201,6 +201,14 @@ func (w *World) walk(name string, followFinal bool, hops int) string {
 		cur = filepath.Clean(w.Cwd)
 	}
 	parts := strings.Split(name, "/")
+	for _, c := range parts {
+		if len(c) > 255 {
+			return "/\x00enametoolong/x" // NAME_MAX
+		}
+	}
+	if len(name) > 4095 {
+		return "/\x00enametoolong/x" // PATH_MAX
+	}
 	last := -1
 	for i, c := range parts {
 		if c != "" && c != "." {
@@ -261,6 +269,9 @@ func (w *World) walk(name string, followFinal bool, hops int) string {
 func (w *World) lookup(p string) (*node, syscall.Errno) {
 	if strings.HasPrefix(p, "/\x00eloop") {
 		return nil, syscall.ELOOP
+	}
+	if strings.HasPrefix(p, "/\x00enametoolong") {
+		return nil, syscall.ENAMETOOLONG
 	}
 	if p == "/" {
 		return w.fs["/"], 0
@@ -334,6 +345,8 @@ func errnoName(e syscall.Errno) string {
 		return "EBADF"
 	case syscall.EXDEV:
 		return "EXDEV"
+	case syscall.ENAMETOOLONG:
+		return "ENAMETOOLONG"
 	}
 	return fmt.Sprintf("errno%d", int(e))
 }
